@@ -443,16 +443,33 @@ def rule_error_propagation(prog, res, closure, side="decode", floor=None):
                 # must be consumed: operand of Try::branch, or moved to _0, or its discriminant read - directly or after being moved into
                 # another local (`let r = match .. { arm => encode(..), .. }; r?`)
                 holders = {L}
+                wrapped = set()         # locals holding Some(result) / (result,): an iterator item on its way to the loop body
                 grew = True
                 while grew:
                     grew = False
                     for bb in f.reachable():
                         for s in f.blocks[bb]["stmts"]:
-                            if s["k"] == "assign" and not s["place"]["proj"] and s["rv"]["k"] == "use" and s["rv"]["op"]["k"] in ("copy", "move") \
-                                    and not s["rv"]["op"]["place"]["proj"] and s["rv"]["op"]["place"]["local"] in holders and s["place"]["local"] not in holders \
-                                    and s["place"]["local"] != 0:
-                                holders.add(s["place"]["local"])
-                                grew = True
+                            if s["k"] != "assign" or s["place"]["proj"] or s["place"]["local"] == 0:
+                                continue
+                            rv_ = s["rv"]
+                            dl = s["place"]["local"]
+                            if rv_["k"] == "use" and rv_["op"]["k"] in ("copy", "move"):
+                                sp = rv_["op"]["place"]
+                                if not sp["proj"] and sp["local"] in holders and dl not in holders:
+                                    holders.add(dl)
+                                    grew = True
+                                elif not sp["proj"] and sp["local"] in wrapped and dl not in wrapped:
+                                    wrapped.add(dl)
+                                    grew = True
+                                elif sp["proj"] and sp["local"] in wrapped and all(x["k"] in ("downcast", "field") for x in sp["proj"]) and dl not in holders:
+                                    holders.add(dl)
+                                    grew = True
+                            elif rv_["k"] == "aggregate" and rv_.get("agg") in ("adt", "tuple") and len(rv_.get("ops", [])) == 1 and dl not in wrapped:
+                                o_ = rv_["ops"][0]
+                                if o_["k"] in ("copy", "move") and not o_["place"]["proj"] and o_["place"]["local"] in holders and \
+                                        (rv_.get("agg") == "tuple" or rv_.get("path") == "core::option::Option"):
+                                    wrapped.add(dl)
+                                    grew = True
                 used = False
                 for bb in f.reachable():
                     blk = f.blocks[bb]
